@@ -195,7 +195,27 @@ func init() {
 				}
 				ruleStride(c, "stride", fns)
 				c.floor("stride", 100)
+				ruleDPStep(c, "dpstep", fns)
+				c.floor("dpstep", 60)
 			})
+		},
+	})
+	register(&propDef{
+		ID: "C08",
+		Explanation: "dpstep: in all twelve align functions, wherever a score-matrix entry is added to DP-table cells (fill recurrences, affine layers through max2/max3/add, and traceback tests), the predecessor offset and the letters scored agree — p-c-1 with a[r][q], p-c with a[r][gap], p-1 with a[gap][q] (offsets decomposed against p = i*c+j, letters from the role of the letter index in the matrix subscript). stride: reference-letter indices select rows and query-letter indices columns of the flattened matrix. sibling: the Letters and QLetters variants are the same program. These are necessary conditions of the recurrences computing optimal scores; optimality itself (a maximum over exponentially many alignments) is value-level.",
+		NotDecided:  "that the maximum is taken over all three moves, the border initialisation values, tie-breaking in the traceback, the affine layer switching logic, SW's zero floor and end-cell choice, the fitted end-row selection — i.e. optimality as such.",
+		Assumptions: []string{"p = i*c+j addresses row i, column j of the table; rows are reference positions"},
+		Run: func(c *Ctx) {
+			fnsOf := func() []*ssa.Function {
+				var fns []*ssa.Function
+				for _, a := range aligners {
+					fns = append(fns, c.fn("align", a+".alignLetters"), c.fn("align", a+".alignQLetters"))
+				}
+				return fns
+			}
+			c.guard("dpstep", func() { ruleDPStep(c, "dpstep", fnsOf()); c.floor("dpstep", 60) })
+			c.guard("stride", func() { ruleStride(c, "stride", fnsOf()); c.floor("stride", 100) })
+			c.guard("sibling", func() { ruleSibling(c, "sibling", aligners); c.floor("sibling", 6) })
 		},
 	})
 	register(&propDef{
